@@ -372,8 +372,10 @@ def impl_hsm_async(case):
     import asyncio
     world = World(case['env'], case['machine']['send'])
     world.state_of = state_forest
-    world.perform = lambda a: None
+    pending = []
+    world.perform = lambda a: pending.append(a)
     base = world.recorder
+    holder = {}
 
     def arecorder(slot, cb, model_of_call=None):
         inner = base(slot, cb, model_of_call)
@@ -381,7 +383,17 @@ def impl_hsm_async(case):
         async def rec(*args, **kwargs):
             for _ in range(cb % 3):
                 await asyncio.sleep(0)
-            return inner(*args, **kwargs)
+            del pending[:]
+            try:
+                r = inner(*args, **kwargs)
+            finally:
+                todo = list(pending)
+                del pending[:]
+            for a in todo:               # actions: events awaited from inside the callback
+                if a[0] == 0:
+                    tok = Token(3000 + world.pos)
+                    await holder['model'].trigger('e%d' % a[2], tok, k=tok)
+            return r
         rec.__name__ = inner.__name__
         return rec
     world.recorder = arecorder
@@ -389,6 +401,7 @@ def impl_hsm_async(case):
     machine, model = build_hsm(case, world, flat.get_class(cname), extra_kwargs=flat.class_kwargs(cname))
     world.model_ids[id(model)] = case.get('model', 0)
     world.current_model = model
+    holder['model'] = model
     init_cfg = state_forest(model)
     out = []
 
@@ -427,3 +440,58 @@ def async_stream(tag, seed, n, **genkw):
     io = F.run_impl('hsm', 'impl_hsm_async', cases)
     bad = [(c, m, i) for c, m, i in zip(cases, mo, io) if m != i]
     return cases, bad
+
+
+def async_nested_stream(tag, seed, n, **genkw):
+    """HierarchicalAsyncMachine, unqueued: on_enter / on_exit callbacks (coroutines, suspended a few times) await an
+    event of the same model whose only transitions are internal ones (dest=None, one `after` marker).  Such an event
+    changes nothing, so - markers removed - the observable run must be the run of the twin case without those
+    actions, which the synchronous Coq engine computes.  Returns (cases, disagreements, marker_count)."""
+    import framework as F
+    MARK = 7777
+    cases, twins = [], []
+    for i in range(n):
+        rng = random.Random('%s-%d-%d' % (tag, seed, i))
+        c = trim_lists(gen_case(rng, **genkw))
+        m = c['machine']
+        for key in ('prepare_event', 'before_sc', 'after_sc', 'finalize', 'on_exception'):
+            m[key] = []
+        k = [0]
+        cands = []
+        for p, d in all_defs(m):
+            for key in ('enter', 'exit'):
+                if not d[key]:
+                    k[0] += 1
+                    d[key] = [6000 + k[0]]
+                if d['children'] or rng.random() < 0.3:
+                    cands.append(d[key][0])
+        m['events'] = list(m['events']) + [(40, [dict(src=[d['name']], dst=None, prepare=[], conds=[], before=[], after=[MARK])
+                                                 for d in m['states']])]
+        c['history'] = [(0, e, a) for (kk, e, a) in c['history']]
+        c['env'] = dict(default=c['env']['default'], bypos={},
+                        bycb={kk: (r[0], None, []) for kk, r in c['env']['bycb'].items() if r[1] is None})
+        c['cls'] = ['HierarchicalAsyncMachine', 'HierarchicalAsyncGraphMachine'][i % 2]
+        twin = copy.deepcopy(c)
+        for cb in rng.sample(cands, min(len(cands), rng.randint(1, 3))):
+            r = c['env']['bycb'].get(cb, (c['env']['default'], None, []))
+            c['env']['bycb'][cb] = (r[0], None, [(0, 0, 40)])
+        cases.append(c)
+        twins.append(twin)
+    mo = F.run_model(3, [enc_case(c) for c in twins])
+    io = F.run_impl('hsm', 'impl_hsm_async', cases)
+    marks = [0]
+
+    def strip(o):
+        if not isinstance(o, list) or o[0] != 1:
+            return o
+        out = []
+        for items, res, cfg in o[2]:
+            marks[0] += sum(1 for it in items if it[1] == MARK)
+            out.append([[it[:7] + [[]] for it in items if it[1] != MARK], res, cfg])
+        return [o[0], o[1], out]
+    bad = []
+    for c, mm, ii in zip(cases, mo, io):
+        a, b = strip(mm), strip(ii)
+        if a != b:
+            bad.append((c, a, b))
+    return cases, bad, marks[0]
